@@ -317,6 +317,14 @@ OPS_SMALL = [('set', KM, 'H1'), ('set', KJ, 'H2'), ('set', KT, 'H1'), ('set', KV
              ('update', ((KV, 'H1'), (KJ, 'H1'))), ('clear',), ('copy_switch',), ('copy_keep',)]
 
 _model_memo = {}
+_SSE_LOOP = [None]
+
+
+def _sse_loop():
+    if _SSE_LOOP[0] is None:
+        from mc.core import vloop
+        _SSE_LOOP[0] = vloop.VLoop()
+    return _SSE_LOOP[0]
 
 
 def model_resolve(model, q, d):
@@ -328,7 +336,23 @@ def model_resolve(model, q, d):
 
 
 class HState:
-    __slots__ = ('cur', 'mcur', 'other', 'mother', 'prev')
+    __slots__ = ('cur', 'mcur', 'other', 'mother', 'prev', 'app')
+
+
+class _SseRes:
+    async def on_get(self, req, resp):
+        async def emit():
+            yield falcon.asgi.SSEvent(json={})
+        resp.sse = emit()
+
+
+def make_sse_app(handlers):
+    """A long-lived ASGI app whose response-side mapping IS the mapping under test (event streams serialize
+    SSEvent(json=...) with the handler the mapping designates for JSON at the time of the request)."""
+    app = falcon.asgi.App()
+    app.resp_options.media_handlers = handlers
+    app.add_route('/sse', _SseRes())
+    return app
 
 
 class HandlersHarness:
@@ -351,6 +375,7 @@ class HandlersHarness:
         s.other = None
         s.mother = None
         s.prev = None
+        s.app = make_sse_app(s.cur)
         for op in self.prefix:
             self.replay(s, op)
         return s
@@ -464,6 +489,8 @@ class HandlersHarness:
                     continue
                 if label == 'cur' and check:
                     ok = self.e2e(obj, mod, full, op, check) and ok
+                if label == 'cur':
+                    ok = self.sse_probe(s, obj, mod, full, op, check) and ok
                 res = obj._resolve
                 for q in QUERIES:
                     for d in DEFAULTS:
@@ -493,6 +520,23 @@ class HandlersHarness:
                                           got[0] if type(got) is tuple else got)
                                 ok = False
         return ok
+
+    def sse_probe(self, s, obj, mod, full, op, check):
+        if s.app.resp_options.media_handlers is not obj:
+            s.app.resp_options.media_handlers = obj          # copy_switch: the application installs the copy
+        res = adrv.call(s.app, method='GET', raw_path='/sse', loop=_sse_loop())
+        self.rep.trans()
+        if not check:
+            return True
+        k = model_resolve(mod, KJ, KJ)
+        exp_h = mod[k] if k is not None else None
+        want = b'data: S:' + exp_h.tag.encode() + b'\n\n' if isinstance(exp_h, TagHandler) else b'data: {}\n\n'
+        if res.exc is not None or res.body != want:
+            self.viol('resolve-mismatch', op, full, 'cur', 'sse',
+                      '%r for an event stream (body %r)' % (exp_h if exp_h is not None else 'built-in JSON', want),
+                      repr(res.exc) if res.exc is not None else res.body)
+            return False
+        return True
 
     def e2e(self, obj, mod, full, op, check):
         rep = self.rep
